@@ -40,6 +40,7 @@ struct Expect {
   double emin = 0, emax = 0, step = 0, qbb = 0;
   std::vector<double> e1;
   std::vector<std::vector<double>> e2;
+  bool pdf_only = false;
 };
 
 static bool read_expect(const std::string & fn, Expect & x)
@@ -47,6 +48,11 @@ static bool read_expect(const std::string & fn, Expect & x)
   std::ifstream in(fn);
   if (!in) return false;
   in >> x.n >> x.emin >> x.emax >> x.step >> x.qbb;
+  if (x.n < 0) { // p.d.f.-only dataset (the documented encoder cannot write its c.d.f.): rejection method only
+    x.n = -x.n;
+    x.pdf_only = true;
+    return (bool)in;
+  }
   x.e1.resize(x.n);
   for (auto & v : x.e1) in >> v;
   x.e2.resize(x.n);
@@ -143,7 +149,7 @@ static void check_dataset(const std::string & root, const std::string & ds)
   // ---- decoded tables, line by line, through the public decoder
   std::vector<double> e1cdf;
   std::vector<std::vector<double>> e2cdf;
-  {
+  if (!x.pdf_only) {
     std::ifstream in(base + "/tab_ocdf.data");
     std::string l;
     int row = -3; // esum, header, then e1 cdf, then rows
@@ -174,7 +180,7 @@ static void check_dataset(const std::string & root, const std::string & ds)
   setenv("BXDECAY0_DBD_GA_DATA_DIR", (root + "/" + ds).c_str(), 1);
   auto energy = [&](int k) { return x.emin + k * x.step; };
   // ---- inverse transform method
-  try {
+  if (!x.pdf_only) try {
     bxdecay0::dbd_gA g;
     g.set_nuclide("Test");
     g.set_process(bxdecay0::dbd_gA::PROCESS_G0);
@@ -267,10 +273,10 @@ static void check_dataset(const std::string & root, const std::string & ds)
     g.set_process(bxdecay0::dbd_gA::PROCESS_G0);
     g.set_shooting(bxdecay0::dbd_gA::SHOOTING_REJECTION);
     g.initialize();
-    const double us[] = {1e-12, 0.03, 0.25, 0.5, 0.75, 0.97, 1 - 1e-12};
+    const double us[] = {1e-12, 0.03, 0.25, 0.4, 0.49, 0.5, 0.51, 0.6, 0.75, 0.97, 1 - 1e-12};
     for (double a : us)
       for (double b : us)
-        for (double c : {1e-12, 0.5, 1 - 1e-12}) {
+        for (double c : {1e-12, 1e-3, 0.5, 1 - 1e-12}) {
           Seq r;
           r.v = {a, b, c};
           r.horizon = 300000;
